@@ -197,7 +197,7 @@ func typeString(ds []Decl, t *Term) string {
 			for _, x := range own {
 				l = append(l, typeString(ds, x))
 			}
-			s += "[" + strings.Join(l, ",") + "]"
+			s += "[" + strings.Join(l, ", ") + "]" // go/types writes the arguments of an instantiated type with ", "
 		}
 		return s
 	}
